@@ -4,7 +4,7 @@ model; icontract post-condition on compute_box_array (occupancy map exact at its
 resolution); pool-task log (one task per box of levels 0..limit, each executed once)."""
 import os, re, random
 import numpy as np
-from .. import common, gen, workload, pools, contracts
+from .. import common, gen, workload, pools, contracts, endurance
 
 ID = "C09"
 LEVEL = "exploration"
@@ -19,7 +19,7 @@ RULE = ("cases = generated 3D plotfiles with properly nested levels on even bloc
 ASSUMPTIONS = ["float reassociation only: tolerance 1e-10 * sum of |terms| (one lost or doubled cell "
                "is >= 1e-4 of that)", "pool shim M1 with shuffled schedules",
                "blocking factor even (statement's own restriction)"]
-REQUIRED_OBS = {"integrals": 100, "shared_reader_calls": 100, "covered_cells_nonfinite": 3, "mixed_tilings": 2, "mixed_fine_level_tilings": 2, "uniform_boxes_offset_patches": 1, "cli_runs": 30,
+REQUIRED_OBS = {"endurance_calls": 100, "integrals": 100, "shared_reader_calls": 100, "covered_cells_nonfinite": 3, "mixed_tilings": 2, "mixed_fine_level_tilings": 2, "uniform_boxes_offset_patches": 1, "cli_runs": 30,
                 "limited": 30, "volfrac": 30}
 TIMEOUT = {"quick": 600, "thorough": 3000}
 
@@ -59,7 +59,8 @@ def cases(tier, seed):
     for k in range(2 if tier == "quick" else 6):
         cs.append({"scale": "coarse64", "gen": dict(seed=seed * 7 + 9190 + k, names=["rho", "volFrac", "q"], payload="positive"),
                    "sel_seed": seed * 61 + 9190 + k, "poison_covered": False, "fmt": {}})
-    return workload.add_reach_store(cs)
+    # M10: the same operation repeated in one process under a low open-file limit (vlib/endurance.py)
+    return list(workload.add_reach_store(cs)) + [endurance.case("integral", tier, seed)]
 
 
 def setup():
@@ -89,6 +90,8 @@ def is_mixed(m):
 
 
 def run_case(case, work, rec):
+    if case.get("kind") == "endurance":
+        return endurance.run_case(case, work, rec)
     from amr_kitchen import PlotfileCooker
     from amr_kitchen.pestle.pestle import volume_integral
     cli = common.repo_module("amr_kitchen.pestle.cli")
